@@ -46,6 +46,9 @@ type WObject struct {
 type WPackage struct {
 	Name    string    `json:"name"`
 	Objects []WObject `json:"objects"`
+	// DefsTwin: JSON Schema only - the name of an object that also exists under `$defs`
+	// with another type, both being referenced (two documents' conventions merged by hand)
+	DefsTwin string `json:"defs_twin,omitempty"`
 }
 
 // GenOpts restricts the generator to shapes a format (or a set of output
@@ -422,6 +425,9 @@ func GenPackage(r *Rand, name string, opts GenOpts) *WPackage {
 		p.Objects = append(p.Objects, WObject{Name: "Holder", T: holder})
 		g.objNames = append(g.objNames, "Holder")
 	}
+	if sr := r.Side("defs-twin:" + name); sr.Chance(1, 5) && len(p.Objects) > 0 {
+		p.DefsTwin = Pick(sr, p.Objects).Name
+	}
 	// a named `T | null` (and a user of it): an object that is a scalar alias for the
 	// languages whose chain folds the null branch into nullability, and a union for the others
 	if sr := r.Side("nullable-alias:" + name); !opts.Plain && sr.Chance(1, 4) {
@@ -564,11 +570,18 @@ func (p *WPackage) renderJSONSchemaRoot(rootName string) string {
 		defs[o.Name] = s
 		rootProps["f_"+o.Name] = map[string]any{"$ref": "#/definitions/" + o.Name}
 	}
+	if p.DefsTwin != "" {
+		rootProps["a_twin_"+p.DefsTwin] = map[string]any{"$ref": "#/$defs/" + p.DefsTwin}
+		rootProps["z_twin_"+p.DefsTwin] = map[string]any{"$ref": "#/$defs/" + p.DefsTwin}
+	}
 	defs[rootName] = map[string]any{"type": "object", "properties": rootProps}
 	doc := map[string]any{
 		"$schema":     "http://json-schema.org/draft-07/schema#",
 		"$ref":        "#/definitions/" + rootName,
 		"definitions": defs,
+	}
+	if p.DefsTwin != "" {
+		doc["$defs"] = map[string]any{p.DefsTwin: map[string]any{"type": "boolean", "description": "the other " + p.DefsTwin}}
 	}
 	b, _ := json.MarshalIndent(doc, "", " ")
 	return string(b)
